@@ -133,6 +133,17 @@ func (e *progressEngine) unknownAmount(n ast.Node) token.Pos {
 			}
 			callee := load.Callee(e.info, call)
 			if callee == nil {
+				// a call through a function value (a field, a parameter, a table
+				// entry) that is handed the reader: what it takes is not known
+				if tv, ok := e.info.Types[call.Fun]; ok && !tv.IsType() && !tv.IsBuiltin() {
+					if _, isSig := tv.Type.Underlying().(*types.Signature); isSig {
+						for _, a := range call.Args {
+							if t := e.info.TypeOf(a); t != nil && (isTokenReaderType(t) || strings.HasSuffix(t.String(), "bufio.Reader")) {
+								at = call.Pos()
+							}
+						}
+					}
+				}
 				return true
 			}
 			if sig, _ := callee.Type().(*types.Signature); sig != nil && sig.Recv() != nil && strings.HasSuffix(sig.Recv().Type().String(), "bufio.Reader") && callee.Name() == "Discard" {
@@ -497,7 +508,7 @@ func checkLoopProgress(c *core.Ctx, p *load.Prog, rule string, files ...string) 
 			// a call that takes a number of bytes the rule cannot evaluate
 			// (Discard(n), n computed): how much a cycle consumes is not known
 			if at := e.unknownAmount(loop.Body); at.IsValid() {
-				c.Undecide("%s: loop at %s consumes input through a call at %s whose amount is computed (Discard(n)): whether every cycle takes at least one byte is not evaluated", name, p.Pos(loop.Pos()), p.Pos(at))
+				c.Undecide("%s: loop at %s consumes input through a call at %s whose amount is not evaluated (Discard(n) with n computed, or a function value that is handed the reader): whether every cycle takes at least one token or byte is not decided", name, p.Pos(loop.Pos()), p.Pos(at))
 				return true
 			}
 			where := ""
